@@ -162,10 +162,12 @@ type pstep = Pj of proj | Po of op
 let proj_table (s : st) (kind : string) (args : int list) : (pstep list * char * tk * bool) option =
   let r = rank s.x.p_view in
   let arg0 () = match args with a :: _ -> a | [] -> 0 in
-  (* "c_<kind>": the same projection called through a const reference to the view (other overloads, and for
-     rank 1 other code, in the library; the same model) *)
-  let is_c = String.length kind > 2 && String.sub kind 0 2 = "c_" in
-  let kind = if is_c then String.sub kind 2 (String.length kind - 2) else kind in
+  (* value category of the source view: "<kind>" named view (& overloads), "c_<kind>" const reference (const&),
+     "r_<kind>" std::move(view) and "t_<kind>" view() (xvalue / prvalue temporary: the && overloads).  The library
+     has separate overloads, and for rank 1 partly separate code, for them; the model is the same. *)
+  let has_prefix = String.length kind > 2 && kind.[1] = '_' && List.mem kind.[0] [ 'c'; 'r'; 't' ] in
+  let is_c = has_prefix && kind.[0] = 'c' in
+  let kind = if has_prefix then String.sub kind 2 (String.length kind - 2) else kind in
   let const_ok = List.mem kind [ "member_a"; "member_b"; "member_c"; "reint_R"; "reint_Q"; "reint_I"; "reintn_I"; "reintn_D";
                                  "reintn_R"; "tval"; "reint_C"; "reint_D"; "member_re"; "member_im"; "up_Q" ] in
   if s.tk <> TNone || (is_c && not const_ok) then None
@@ -418,15 +420,14 @@ let root_sizes (maxrank : int) : (int * int) list =
         else weighted [ (2, 1); (4, 2); (5, 3); (4, 4); (2, 5); (1, 6) ] in
       (0, n))
 
-let s_kinds = [ (7, "member_a"); (8, "member_b"); (8, "member_c"); (4, "reint_R"); (3, "reint_Q"); (3, "reint_I");
-                (7, "reintn_I 4"); (6, "reintn_D 2"); (2, "reintn_R 1"); (5, "static"); (4, "asconst"); (4, "constcast");
-                (6, "tval"); (8, "tmem"); (8, "tref");
-                (3, "c_member_a"); (4, "c_member_b"); (4, "c_member_c"); (4, "c_reint_R"); (3, "c_reint_Q"); (3, "c_reint_I");
-                (4, "c_reintn_I 4"); (3, "c_reintn_D 2"); (2, "c_reintn_R 1"); (4, "c_tval") ]
-let z_kinds = [ (10, "zreal"); (10, "zimag"); (8, "zdoubled"); (4, "reint_C"); (4, "reint_D"); (7, "reintn_D 2"); (3, "asconst");
-                (3, "c_reint_C"); (4, "c_reint_D"); (4, "c_reintn_D 2") ]
-let i_kinds = [ (2, "up_Q"); (1, "c_up_Q") ]
-let c_kinds = [ (2, "member_re"); (2, "member_im"); (1, "c_member_re"); (1, "c_member_im") ]
+let s_kinds = [ (8, "member_a"); (9, "member_b"); (9, "member_c"); (6, "reint_R"); (5, "reint_Q"); (5, "reint_I");
+                (9, "reintn_I 4"); (8, "reintn_D 2"); (4, "reintn_R 1"); (5, "static"); (4, "asconst"); (4, "constcast");
+                (7, "tval"); (7, "tmem"); (7, "tref") ]
+let z_kinds = [ (8, "zreal"); (8, "zimag"); (7, "zdoubled"); (6, "reint_C"); (6, "reint_D"); (9, "reintn_D 2"); (3, "asconst") ]
+let i_kinds = [ (1, "up_Q") ]
+let c_kinds = [ (1, "member_re"); (1, "member_im") ]
+(* value category through which the projection is called: named view, const&, std::move(view), view() *)
+let categories = [ (35, ""); (20, "c_"); (25, "r_"); (20, "t_") ]
 
 (* emits one case; returns the list of tags for the distribution printed in the evidence *)
 let gen_case (id : string) (maxrank : int) (maxpre : int) (maxpost : int) (tptr_sliced : bool)
@@ -470,19 +471,26 @@ let gen_case (id : string) (maxrank : int) (maxpre : int) (maxpost : int) (tptr_
       let rec try_kind k =
         if k = 0 then None
         else
-          let kind = weighted table in
+          let kind = weighted categories ^ weighted table in
           match words kind with
           | name :: args -> (
               match proj_table s name (List.map int_of_string args) with
               | Some (steps, _, _, _) when run_psteps s.x steps <> None -> Some kind
               | _ -> try_kind (k - 1))
           | [] -> None in
-      match try_kind 20 with
+      match try_kind 40 with
       | None -> ()
       | Some kind ->
+          let src_rank = rank s.x.p_view in
           emit ("proj " ^ kind);
           incr did;
-          tag ("proj:" ^ List.hd (words kind));
+          let name = List.hd (words kind) in
+          let cat, bare =
+            if String.length name > 2 && name.[1] = '_' && List.mem name.[0] [ 'c'; 'r'; 't' ]
+            then (String.make 1 name.[0], String.sub name 2 (String.length name - 2)) else ("l", name) in
+          tag ("proj:" ^ bare);
+          (* (projection kind x value category x rank class of the SOURCE view) table of the evidence *)
+          tag (Printf.sprintf "vc:%s:%s:%s" bare cat (if src_rank = 1 then "D1" else "Dn"));
           List.iter (fun idx -> emit ("probe " ^ join " " string_of_int idx)) (gen_probes s.x.p_view);
           let npost = rnd_range 0 maxpost in
           tag (Printf.sprintf "npost%d" npost);
